@@ -376,6 +376,11 @@ func (fr *Frame) lookupLocal(name string, st *State) (Val, bool) {
 	as := fr.locals[name]
 	for i := len(as) - 1; i >= 0; i-- {
 		if st.hasCell(as[i]) {
+			if av, ok := fr.ptrCells[as[i]]; ok && av.Elem && !isBuilder(av.Root) {
+				// the cell holds the address of a slice element, which has no value in the model: reading it in a
+				// contract would silently mean nil
+				panic(fmt.Sprintf("contract refers to local %s, which holds the address of a slice element; name the element (xs[i]) instead", name))
+			}
 			et := as[i].Type().(*types.Pointer).Elem()
 			return Val{fr.ctx.readCell(st, as[i], et, nil), et}, true
 		}
